@@ -193,9 +193,12 @@ def build_harness():
 
 
 class HangDetected(Exception):
-    def __init__(self, msg, args):
+    """The harness was ended by the code under test: a call that does not return (watchdog) or a panic outside
+    the calls the harness brackets.  Both are data about the code, not tool errors."""
+    def __init__(self, msg, args, kind="hang"):
         super().__init__(msg)
         self.vh_args = args
+        self.kind = kind
 
 
 def vh(args, stdin_path=None, stdout_path=None, timeout=3600, check=True, env=None):
@@ -224,6 +227,14 @@ def vh(args, stdin_path=None, stdout_path=None, timeout=3600, check=True, env=No
         # the harness's watchdog: a call of the code under test did not return (util.rs).  Data, not a tool error.
         msg = [l for l in p.stderr.decode(errors="replace").splitlines() if l.startswith("VH-HANG")][-1]
         raise HangDetected(f"vh {' '.join(map(str, args))}: {msg}", [str(a) for a in args])
+    if p.returncode == 101:
+        # a panic of the code under test at a place where the harness did not expect one (it ended the harness):
+        # the harness's own hook names it, or Rust's default hook does ("panicked at <repo>/crates/...")
+        lines = (p.stderr or b"").decode(errors="replace").splitlines()
+        mine = [l for l in lines if l.startswith("VH-UNCAUGHT-PANIC at crates/")
+                or ("panicked at " in l and "/crates/" in l.split("panicked at ", 1)[1] and "/harness/" not in l)]
+        if mine:
+            raise HangDetected(f"vh {' '.join(map(str, args))}: {mine[0]}", [str(a) for a in args], kind="panic")
     if check and p.returncode != 0:
         log(p.stderr.decode(errors="replace")[-4000:])
         raise ToolError(f"harness failed rc={p.returncode}: vh {' '.join(map(str,args))}")
@@ -513,8 +524,9 @@ def main_wrapper(fn, pid, tier, level="model_checking"):
     except HangDetected as e:
         # total functions that do not return break every property they are anchored in; the replay is the harness
         # command (deterministic in its arguments) - run it again to watch the same call hang
-        ctx.violation(f"a call of the code under test did not return: {e}",
-                      {"kind": "hang", "harness_command": e.vh_args, "seed": ctx.seed,
+        what = "a call of the code under test did not return" if e.kind == "hang" else "the code under test panicked"
+        ctx.violation(f"{what}: {e}",
+                      {"kind": e.kind, "harness_command": e.vh_args, "seed": ctx.seed,
                        "how": "harness/target/release/vh <harness_command>  (VH_CALL_LIMIT_S sets the patience)"})
         return ctx.finish()
     except ToolError as e:
